@@ -131,7 +131,12 @@ def run(ctx):
     # stall points = what the scenario threads were actually seen executing (no method name is assumed)
     learned = sorted(inj.seen)
     if learned:
-        pts = [{"qualname": q, "line": l, "role": r, "k": k} for (q, l, r) in learned for k in (1, 2)]
+        import jsonrpclib.threadpool as tpm
+        roles_by_fn = {}
+        for (q, l, r) in learned:
+            roles_by_fn.setdefault(q, set()).add(r)
+        pts = [{"qualname": q, "line": l, "role": r, "k": k} for (q, l) in sorted(set(inject.statement_lines(tpm)))
+               if q in roles_by_fn for r in sorted(roles_by_fn[q]) for k in (1, 2)]
         ctx.counters["stall-points-enumerated"] = len(pts)
     mine = [pt for i, pt in enumerate(pts) if ctx.mine(i)]
     rng.shuffle(mine)
